@@ -11,6 +11,8 @@ import (
 	"fmt"
 	"math/rand"
 	"os"
+	"runtime"
+	"strconv"
 	"path/filepath"
 	"sort"
 	"strings"
@@ -195,14 +197,53 @@ func runSafe(h Harness, c Case) Result {
 		}()
 		res = h.Run(c)
 	}()
-	select {
-	case res := <-done:
-		return res
-	case <-time.After(budget):
-		hungCases++
-		return Result{Obs: []string{"harness-timeout"},
-			Oracle: []string{fmt.Sprintf("hang\tthe case did not finish within %s (the code under test loops or blocks)", budget)}}
+	// the budget is wall-clock time: on a machine that is busy with other work (load above 60% of the
+	// CPUs) a slow case is given up to four more budgets before it is called hung
+	waited := time.Duration(0)
+	for ext := 0; ; ext++ {
+		select {
+		case res := <-done:
+			return res
+		case <-time.After(budget):
+			waited += budget
+			if ext < 4 && machineBusy() {
+				continue
+			}
+			hungCases++
+			return Result{Obs: []string{"harness-timeout"},
+				Oracle: []string{fmt.Sprintf("hang\tthe case did not finish within %s (the code under test loops or blocks)", waited)}}
+		}
 	}
+}
+
+// recvBusyAware waits for a value for one budget of wall-clock time, and for up to four more while the
+// machine is busy with other work; ok=false means nothing arrived
+func recvBusyAware[T any](ch <-chan T, budget time.Duration) (v T, ok bool) {
+	for ext := 0; ; ext++ {
+		select {
+		case v = <-ch:
+			return v, true
+		case <-time.After(budget):
+			if ext < 4 && machineBusy() {
+				continue
+			}
+			return v, false
+		}
+	}
+}
+
+// machineBusy: 1-minute load average above 60% of the CPUs (Linux /proc/loadavg; false elsewhere)
+func machineBusy() bool {
+	b, err := os.ReadFile("/proc/loadavg")
+	if err != nil {
+		return false
+	}
+	f := strings.Fields(string(b))
+	if len(f) == 0 {
+		return false
+	}
+	l, err := strconv.ParseFloat(f[0], 64)
+	return err == nil && l > 0.6*float64(runtime.NumCPU())
 }
 
 func uniq(s []string) []string {
